@@ -3,6 +3,7 @@ from .lifebase import run_life, replay_life, NH
 
 CL = {1: "the level published for the hand / the options given to the hand engine / the blinds the hand charges differ from the level in force when it opened",
       2: "the running hand's level or charges changed",
+      3: "the level in force after UpdateBlind is not the level announced",
       9: "the status right after CreateTable is not the model's (a table created on a break starts paused; an MTT table handed its players starts balancing)"}
 
 
